@@ -1,14 +1,38 @@
 #!/bin/sh
-# Build the framework offline from files on disk: Lean models+proofs+driver, Go harness warm-up.
-set -e
-cd "$(dirname "$0")"
-(cd lean && lake build Verif $(ls Verif | grep -E '^C[0-9]+$' | while read d; do [ -f "Verif/$d/Main.lean" ] && echo "$(echo $d | tr 'C' 'c')driver"; done))
-python3 - <<'PY'
+# MANIFEST.setup_cmd. Build the framework offline from files on disk:
+#   - Lean: shared protocol module, then per property its proof modules and its compiled model driver;
+#   - Go:   the harness module (replace => /repo) with -tags verif, to warm the build cache.
+# A property whose proofs or harness no longer build must not fail the setup of the other
+# properties: every check rebuilds what it needs from the current /repo tree and reports a
+# broken proof itself (VIOLATION ... no-failing-input-found). Setup fails only when the
+# toolchains themselves do not work.
+cd "$(dirname "$0")" || exit 2
+rc=0
+(cd lean && lake build Verif.Common.Proto) || rc=2
+for d in $(ls lean/Verif | grep -E '^C[0-9]+$'); do
+  low=$(echo "$d" | tr 'C' 'c')
+  mods=$(ls lean/Verif/$d/*.lean 2>/dev/null | grep -v '/Main.lean$' | sed 's#^lean/##; s#\.lean$##; s#/#.#g')
+  [ -z "$mods" ] && continue
+  tgt="$mods"
+  [ -f "lean/Verif/$d/Main.lean" ] && tgt="$tgt ${low}driver"
+  if ! (cd lean && lake build $tgt) > /tmp/verif_setup_$d.log 2>&1; then
+    echo "setup: note: lake build of $d reported errors (its check will report them):"
+    grep -E '^error' /tmp/verif_setup_$d.log | head -5
+  fi
+  rm -f /tmp/verif_setup_$d.log
+done
+python3 - <<'PY' || rc=2
 import sys, os
 sys.path.insert(0, os.getcwd())
 import vlib
 vlib.sync_harness_gosum()
+rc, so, se = vlib.run([vlib.GO, "version"], env=vlib.go_env())
+if rc != 0:
+    print(so + se)
+    sys.exit(2)
 rc, so, se = vlib.run([vlib.GO, "build", "-tags", "verif", "./..."], cwd=vlib.HARNESS, env=vlib.go_env())
-print(so + se)
-sys.exit(rc)
+if rc != 0:
+    print("setup: note: go build of the harness reported errors (the affected checks will report them):")
+    print((so + se)[-3000:])
 PY
+exit $rc
